@@ -18,6 +18,14 @@ def chk(pid, level, text, note, ref, engine, technique=TECH):
     }
 
 CHECKS = [
+    chk("C03", "exploration",
+        "Seeded search over peer sets, per-peer metric histories on the fake clock, current allocations, exclusion and priority lists and factor pairs: a real Cluster with the real allocators decides allocations (Pin, BlockAllocate, PeerRemove-driven re-pins) and each decision is judged against the monitor table read at the same simulated instant (no duplicate, added peers usable and not excluded, healthy holders kept, min <= healthy holders <= max, priority then strategy order, failure below min leaves the pinset untouched, factor -1 stores no allocations). Sampling, not proof.",
+        "Ties may fall either way; a decision taken in the exact instant a metric expires is not judged; the consensus, monitor shell, tracker and IPFS are models (the freshness filter inside the monitor is the real metrics.Store).",
+        "DESIGN.md §6 C03", "clustersim"),
+    chk("C04", "exploration",
+        "Seeded histories of Pin/PinPath/PinUpdate/Unpin/UnpinPath with every option combination against a real Cluster; after every call the returned error class and the whole pinset are compared with an executable reference model of the statement (refusal rules, identical re-pin keeps allocations, any changed/added/removed option is stored, unpin removes exactly the entry or the sharded triple, update copies allocations and options and keeps the source). Sampling, not proof.",
+        "Consensus is a single-copy model over the real dsstate; expiry compared in whole seconds; empty metadata keys/values and updates onto sharded entries are not generated because the statement does not determine them.",
+        "DESIGN.md §6 C04", "clustersim"),
     chk("C05", "exploration",
         "Seeded search over tracker histories: the real stateless tracker + operation tracker run against a model pinset and a model IPFS daemon whose calls the plan parks, reorders, fails, loses or lets be cancelled; at every quiescent instant the daemon must match the last instruction or the status must be an error status, and after recover rounds with a healthy daemon it must match the pinset including the pin mode. Sampling, not proof.",
         "Trusted: the model daemon (cancellation is a barrier; direct-over-recursive is refused as in go-ipfs), gorpc local calls, the synctest bubble and the patched runtime. Interleavings inside one simulated instant are chosen by the runtime tie-break seed, not enumerated.",
@@ -59,6 +67,7 @@ def main():
             "add_only": True,
         },
         "engines": [
+            {"name": "clustersim", "path": "/verif/harness/clustersim", "serves_properties": ["C03", "C04"], "kind_free_text": "real ipfscluster.Cluster + real allocators on mocknet against model consensus/monitor/tracker/IPFS"},
             {"name": "monsim", "path": "/verif/harness/monsim", "serves_properties": ["C09"], "kind_free_text": "real metrics Store/Window/Checker and pubsubmon over gossipsub on mocknet under the fake clock"},
             {"name": "trackersim", "path": "/verif/harness/trackersim", "serves_properties": ["C05", "C06"], "kind_free_text": "real stateless tracker + optracker in a synctest bubble against model pinset and model IPFS daemon"},
         ],
